@@ -308,6 +308,23 @@ func LiteralFields(addr ssa.Value) map[string]ssa.Value {
 	return out
 }
 
+// LiteralFieldStores maps field names to every value stored into that field of the struct at addr (a variable
+// filled in field by field has several stores per field, on different branches).
+func LiteralFieldStores(addr ssa.Value) map[string][]ssa.Value {
+	out := map[string][]ssa.Value{}
+	for _, r := range Referrers(addr) {
+		fa, ok := r.(*ssa.FieldAddr)
+		if !ok || fa.X != addr {
+			continue
+		}
+		f := FieldOfAddr(fa)
+		for _, s := range StoresTo(fa) {
+			out[f.Name()] = append(out[f.Name()], s.Val)
+		}
+	}
+	return out
+}
+
 // StructLiteralOf finds, for a value that is a struct (loaded from a literal's Alloc) or a pointer to
 // one, the Alloc holding the literal.
 func StructLiteralOf(v ssa.Value) *ssa.Alloc {
